@@ -139,7 +139,9 @@ def replay_cli_case(spec, data, d):
         return climon.replay_cnf(data, d)
     if mode == "wcnf":
         return climon.replay_wcnf(data, d)
-    # fzn / repro cases are regenerated from their coordinates (generator state is part of the oracle)
+    if mode == "fzn" and "oracle" in (data.get("case") or {}):
+        return climon.replay_fzn(data, d)
+    # otherwise the case is regenerated from its coordinates
     fn = {"fzn": climon.case_fzn}.get(mode)
     if fn is None:
         fn = lambda r, i, dd: climon.case_repro(r, i, dd, 3)
